@@ -11,6 +11,19 @@ module A = ArangesRd
 exception MPanic
 exception MFuel
 
+(* The driver shards by emit count and drops the cases of other shards; evaluating the model for those is
+   wasted work (16x). Same counter here: cases of other shards are emitted with empty expectations. *)
+let shard, nshards =
+  match Array.to_list Sys.argv with
+  | _ :: "gen" :: _ :: _ :: _ :: a :: b :: _ -> (try (int_of_string a, int_of_string b) with _ -> (0, 1))
+  | _ -> (0, 1)
+let emitted = ref 0
+let both (emit : emit) case (f : bool -> string) =
+  let mine = !emitted mod nshards = shard in
+  incr emitted;
+  if mine then emit case (f true) (f false) else emit case "" ""
+let emit_fixed (emit : emit) case e = incr emitted; emit case e e
+
 let ename = Errnames.name
 let sn = string_of_n
 let ni = n_of_int
@@ -546,7 +559,7 @@ let utf8 (cp : int) : int list =
 
 let gen_djbfold ~seed ~n emit =
   let r = mk_rng seed in
-  let k cps = emit ("c17.djbfold " ^ hex_of_ints (List.concat_map utf8 cps)) "ok" "ok" in
+  let k cps = emit_fixed emit ("c17.djbfold " ^ hex_of_ints (List.concat_map utf8 cps)) "ok" in
   (* every scalar value of the BMP and of the supplementary planes that have case pairs, one char per case in blocks of 64 *)
   let block lo hi =
     let cur = ref [] in
@@ -725,7 +738,7 @@ let gen_indexed ~seed ~n emit =
       if Z.gt base len || Z.gt (Z.add off (Z.of_int sz)) len then "err UnexpectedEof"
       else match Prim.read_un (nat_of_int sz) be (List.filteri (fun i _ -> i >= Z.to_int off) bs) with
         | Res.Ok (v, _) -> "ok " ^ sn v | _ -> "err UnexpectedEof" in
-    emit (Printf.sprintf "c17.indexed %s %d %d %s %s %s" kind (bflag be) sz (Z.to_string base) (Z.to_string index) (hex_of_ints l)) expected expected in
+    emit_fixed emit (Printf.sprintf "c17.indexed %s %d %d %s %s %s" kind (bflag be) sz (Z.to_string base) (Z.to_string index) (hex_of_ints l)) expected in
   List.iter (fun be ->
     List.iter (fun (kind, sz) ->
       let l = List.init 40 (fun i -> (i * 37 + 11) land 255) in
@@ -754,7 +767,7 @@ let variants () : string array =
   Array.sort compare a; a
 
 let gen_wiring ~seed:_ ~n:_ emit =
-  let k api arg = emit (Printf.sprintf "c17.wiring %s %d" api arg) "ok" "ok" in
+  let k api arg = emit_fixed emit (Printf.sprintf "c17.wiring %s %d" api arg) "ok" in
   List.iter (fun api -> k api 0)
     ["sections_load"; "sections_borrow"; "sections_borrow_with_sup"; "dwarf_load"; "dwarf_load_sup"; "dwarf_borrow";
      "make_dwo"; "package_sections_load"; "package_load"; "package_borrow"; "section_names"];
@@ -767,10 +780,10 @@ let gen_wiring ~seed:_ ~n:_ emit =
 
 let gen_corpus ~seed:_ ~n:_ emit =
   let vs = variants () in
-  if Array.length vs = 0 then emit "c17.corpus all missing-corpus" "ok" "ok" else
+  if Array.length vs = 0 then emit_fixed emit "c17.corpus all missing-corpus" "ok" else
   Array.iter (fun v ->
     let has s = Sys.file_exists (Filename.concat (Filename.concat (corpus_dir ()) v) s) in
-    let k kind = emit (Printf.sprintf "c17.corpus %s %s" kind v) "ok" "ok" in
+    let k kind = emit_fixed emit (Printf.sprintf "c17.corpus %s %s" kind v) "ok" in
     if has "debug_aranges" then k "aranges";
     if has "debug_pubnames" || has "debug_pubtypes" then k "pub";
     if has "debug_names" then k "names";
